@@ -408,7 +408,7 @@ class AssignedFeatureCounter(AbstractCounter):
         total_counts = defaultdict(float)
         with open(self.output_counts_file_name) as f:
             for line in f:
-                if line.startswith('_'): break
+                if line.startswith('__'): break
                 if line.startswith('#'): continue
                 fs = line.rstrip().split('\t')
                 if self.ignore_read_groups:
@@ -431,7 +431,7 @@ class AssignedFeatureCounter(AbstractCounter):
         with open(self.output_tpm_file_name, "w") as outf:
             with open(self.output_counts_file_name) as f:
                 for line in f:
-                    if line.startswith('_'): break
+                    if line.startswith('__'): break
                     if line.startswith('#'):
                         outf.write(line.replace("count", "TPM"))
                         continue
